@@ -73,7 +73,7 @@ CHECKS["C05"] = {
     "lean_targets": ["Yae.Props.C05", "Yae.Props.C05b", "Yae.Props.C17"],
     "streams": [
         EVAL(5000, 80000, kinds=["check"], projections=["accept", "type", "annot"], model_is_oracle=True, oracles=["check-internal-fault", "mono-key-field-order", "poly-first-match-bot"]),
-        {"name": "types", "quick_n": 8000, "thorough_n": 100000, "kinds": ["infer", "unify"], "oracles": ["match-*"]},
+        {"name": "types", "quick_n": 8000, "thorough_n": 100000, "kinds": ["infer"], "oracles": ["match-*"]},
     ],
     "explanation": "A declarative typing relation Typed (Spec/Typing.lean) states the rules; proved: check accepts only typed programs with exactly the relation's type (C05.sound), accepts every typed program for every value of the type-variable counter (complete, counter_irrelevant, accepts_iff_typed, never_fuel), the relation is functional (unique), the annotated tree is the input plus attachments (erase); the checker's first-match rule vs the natural rule is characterised (overload_rules_coincide) with the kernel-checked D22 witness of their difference. Tie: check requests of the eval stream (accept/reject, inferred type, annotated tree) on type-directed programs and their type-breaking mutants with random overload sets.",
     "assumptions": ["the environment satisfies SigEnv: variable types are ground and well formed, registered signatures satisfy the decidable condition sigOK (true of all 56 built-ins by decide: C05.builtins_sigOK); under it inferFun equals the specification's matcher and check never runs out of fuel (C05.sigOK_inferFun, never_fuel), so sound / complete / accepts_iff_typed hold without further hypotheses"],
@@ -196,8 +196,8 @@ CHECKS["C16"] = {
     "level": "proof",
     "lean_targets": ["Yae.Props.C16", "Yae.Props.C02"],
     "streams": [
-        EVAL(4000, 60000, kinds=["check", "run"], projections=["accept", "class"], input_regex=r"\b(mb|ms|om)\b|maybe|Nothing|Just"),
-        {"name": "conv", "quick_n": 1500, "thorough_n": 20000, "oracles_only": True, "oracles": ["conv-wf"]},
+        EVAL(4000, 60000, kinds=["check", "run"], projections=["accept", "class"], model_is_oracle=["check"], input_regex=r"\b(mb|ms|om)\b|maybe|Nothing|Just"),
+        {"name": "conv", "quick_n": 4000, "thorough_n": 50000, "oracles_only": True, "oracles": ["conv-wf"]},
     ],
     "explanation": "Proved: unification of a pattern with an optional type succeeds only for a variable, an optional pattern (or top, which no registered signature contains) (no_coercion, builtins_no_top); in every accepted call an optional argument meets a type-variable or optional parameter (accepted_call_no_coercion); by decide over the regenerated built-in table the only optional parameter is get's and the bare-variable positions are listed (sole_eliminator); member and subscript on an optional are rejected (member_rejected, subscript_rejected); get(optional, d) yields payload or default (get_maybe_spec); accepted programs over environments with absent values never fail because of them (C02.progress with WF admitting nothing). Tie: eval stream with optional-typed variables present/absent and nested, conv stream with nil pointers/slices/maps.",
     "assumptions": [],
